@@ -4,7 +4,7 @@
    A changed dict entry, a dropped/added table assignment, a changed strand symbol or np.where operand order,
    a changed amino-acid string / base order / window size / hash weight makes one of these lemmas fail. *)
 From Coq Require Import ZArith List Bool Lia String.
-From BNP Require Import Base.Prims Model.C14 Gen.C14.
+From BNP Require Import Base.Prims Model.C14 Proofs.C14 Proofs.C14_mask Gen.C14.
 Import ListNotations.
 Open Scope Z_scope.
 
@@ -58,6 +58,51 @@ Proof. reflexivity. Qed.
 Lemma b_transcripts : forall keys wh ref txs,
   model_transcripts keys wh ref txs = model_extract keys wh gen_genes_where 2 ref tx_ext tx_strand txs.
 Proof. intros; reflexivity. Qed.
+
+(* --- the strand mask of the three sites (round 6: the repaired code) --- *)
+(* dna.py broadcast_row_mask as regenerated: RaggedArray(<flat>, lengths) with lengths = sequences.lengths *)
+Definition gen_row_mask (mask : list bool) (sequences : list (list Z)) : list (list bool) :=
+  let lengths := map len sequences in split_lens (gen_row_mask_flat mask lengths) lengths.
+(* the np.where a site reaches, from its regenerated mask form: the explicit row mask goes through npstructures' np.where on a
+   full-size ragged mask ([where_flat]); the column form `(..)[:, np.newaxis]` through its conditional broadcast ([where_pinned]) *)
+Definition site_where (m : bool * bool) : list bool -> list (list Z) -> list (list Z) -> result (list (list Z)) :=
+  if fst m then where_call gen_row_mask (snd m) else where_pinned.
+Lemma b_row_mask : gen_row_mask_shape_is_lengths = true
+  /\ forall mask s, List.length mask = List.length s -> gen_row_mask mask s = row_mask_of mask s.
+Proof. split; [reflexivity|]. intros mask s H. unfold gen_row_mask, gen_row_mask_flat. cbv zeta. apply row_mask_split, H. Qed.
+(* all three sites hand over the explicit row mask ... *)
+Lemma b_mask_forms : fst gen_dna_mask = true /\ fst gen_genomic_mask = true /\ fst gen_genes_mask = true.
+Proof. repeat split; reflexivity. Qed.
+(* ... and with it the extraction (any item type: intervals, transcripts) is the extraction with [where_rows], the np.where of
+   the model the theorems in force are about: never an error, whatever the number of rows and bases *)
+Lemma b_site_where : forall m, In m [gen_dna_mask; gen_genomic_mask; gen_genes_mask] ->
+  forall (I : Type) keys site ez ref (ext : list Z -> I -> list Z) strand items,
+    model_extract keys (site_where m) site ez ref ext strand items
+    = model_extract keys where_rows site ez ref ext strand items.
+Proof.
+  intros m Hm I keys site ez ref ext strand items. apply extract_where_ext. intros mask x y Hl Hs.
+  destruct Hm as [<-|[<-|[<-|[]]]]; unfold site_where; cbn [fst snd gen_dna_mask gen_genomic_mask gen_genes_mask];
+    apply (where_call_fixed gen_row_mask (proj2 b_row_mask)); assumption.
+Qed.
+(* the three sites, each with its own regenerated mask form, symbol, operand order and slice bounds *)
+Lemma b_stranded_dna_full : forall keys ez ref ivs,
+  model_stranded keys where_rows true ez ref ivs
+  = model_stranded_site keys (site_where gen_dna_mask) gen_dna_where gen_dna_slice_start gen_dna_slice_stop ez ref ivs.
+Proof.
+  intros. rewrite (b_stranded_dna keys where_rows), !stranded_site_extract.
+  symmetry. apply b_site_where. cbn; tauto.
+Qed.
+Lemma b_stranded_genomic_full : forall keys ez ref ivs,
+  model_stranded keys where_rows false ez ref ivs
+  = model_stranded_site keys (site_where gen_genomic_mask) gen_genomic_where (fun a _ => a) (fun _ b => b) ez ref ivs.
+Proof.
+  intros. rewrite (b_stranded_genomic keys where_rows), !stranded_site_extract.
+  symmetry. apply b_site_where. cbn; tauto.
+Qed.
+Lemma b_transcripts_full : forall keys ref txs,
+  model_transcripts keys where_rows ref txs
+  = model_extract keys (site_where gen_genes_mask) gen_genes_where 2 ref tx_ext tx_strand txs.
+Proof. intros. rewrite (b_transcripts keys where_rows). symmetry. apply b_site_where. cbn; tauto. Qed.
 
 (* --- sequence/translate.py + kmers.py: table, base order, window, reversed 3-mer hash, length rules --- *)
 Lemma b_translate_tables :
